@@ -417,7 +417,18 @@ class FuncORD:
     for p in prods:
       if not (isinstance(p, ast.Tuple) and len(p.elts) > pos):
         unknown = True
-      elif not _is_time_expr(p.elts[pos], None):
+        continue
+      e = p.elts[pos]
+      if isinstance(e, ast.Name):
+        # a local: every value it is bound to must be a time (a time read once into a variable); no binding found: unknown
+        vals = [val for (_ln, val, _st) in self.defs.get(e.id, [])]
+        if vals and all(v is not None and _is_time_expr(v, None) for v in vals):
+          continue
+        if not vals or any(v is None for v in vals):
+          unknown = True
+          continue
+        return False
+      if not _is_time_expr(e, None):
         return False
     return None if unknown else True
 
@@ -614,6 +625,8 @@ class FuncORD:
               par = U.parent(self.fn, st)
               if isinstance(par, ast.If) and any(isinstance(x, ast.Break) and self._find_unique(loop, x) for x in par.body):
                 continue
+              if par is loop and any(isinstance(x, ast.Break) and self._find_unique(loop, x) for x in loop.body):
+                continue
               if op == 'store' and isinstance(val, ast.Constant):
                 const_stores.setdefault(tgt.id, set()).add(repr(val.value))
               elif not _is_reduction(st, tgt.id, op, val, self.fn):
@@ -665,7 +678,8 @@ class FuncORD:
           reasons.append('augmented store %s into shared object is not commutative' % norm_text(st))
           continue
         vtxt = norm_text(val) if val is not None else ''
-        tests = U.enclosing_tests(self.fn, st, stop_at=loop)
+        # conditions that hold at the store: enclosing tests and the negations of earlier early exits (if not e > v: continue)
+        tests = U.path_conditions(self.fn, st, stop_at=loop)
         if any(U.is_gt_guard(tp, vtxt, ttxt) or _is_lt_guard(tp, vtxt, ttxt) for tp in tests):
           continue   # guarded max / min reduction
         if isinstance(val, ast.Call) and dotted(val.func) in ('max', 'min') and any(norm_text(a) == ttxt for a in val.args):
@@ -767,6 +781,22 @@ class FuncORD:
     """`if x.<time field> == const: v = x; break` - the searched element is unique
     by the property's precondition (no two state events of a kind share a time)."""
     par = U.parent(self.fn, brk)
+    if par is loop:
+      # the same search written with an early exit:  if not (x.<time> == const): continue;  v = x;  break
+      tests = [(t, p) for t, p in U.path_conditions(self.fn, brk, stop_at=loop)]
+      uniq = False
+      for t, p in tests:
+        c = U.compare_nf(t, p)
+        if c is not None and c[1] == '==' and ((c[0] in TIME_KEYS) != (c[2] in TIME_KEYS)):
+          uniq = True
+      if not uniq:
+        return False
+      for s in loop.body:
+        if s is brk or (isinstance(s, ast.If) and not s.orelse and len(s.body) == 1 and isinstance(s.body[0], ast.Continue)):
+          continue
+        if not (isinstance(s, ast.Assign) and isinstance(s.targets[0], ast.Name)):
+          return False
+      return True
     if not isinstance(par, ast.If) or par.orelse:
       return False
     c = U.compare_nf(par.test)
@@ -999,7 +1029,7 @@ def _is_reduction(st, name, op, val, fn):
     return name not in _loads(other)
   # guarded max/min: if e > v: v = e
   vtxt = norm_text(val)
-  for tp in U.enclosing_tests(fn, st):
+  for tp in U.path_conditions(fn, st):
     if U.is_gt_guard(tp, vtxt, name) or _is_lt_guard(tp, vtxt, name):
       return True
   return False
